@@ -12,7 +12,7 @@ RULE = ('malformed-input stream for the decoding entry points, debug and release
         'bytes, every codeword value after every latch, truncated valid streams, ECI designators of every form followed by every byte; '
         'decode_error on random words of every size, words with t or more leading zero syndromes (constructed by solving for them), words '
         'far outside the radius; try_from_bits / DataMatrix::decode on random arrays, renderings of random codeword vectors (valid finder, '
-        'garbage content) and wrong shapes; non-trivial = input rejected or accepted after real work (not an empty input)')
+        'garbage content) and wrong shapes; non-trivial = input rejected or accepted after real work (not an empty input); ECI designators of every form with every second / third codeword value; the regression corpus of former panic witnesses')
 THEOREMS = 'C05_decode_data, C05_decode_str, C05_try_from_bits, C05_rs_success_shape, C05_codewords_total, C05_decode_glue'
 ASSUMPTIONS = ['partial: no-panic of the Reed-Solomon decoder (Levinson-Durbin, Bjoerck-Pereyra index/division safety and its debug assertions) is not a theorem; it is covered by the debug+release correspondence and the malformed-word families', 'hang detection: wall-clock limit on the harness process', 'allocation failure and stack exhaustion are outside the model']
 
